@@ -392,7 +392,7 @@ Qed.
 
 (* from the other states ActiveIdle is entered with no pending offer *)
 Lemma do_listen_token_active_idle f now (w : W) f' w' sr nps cc :
-  do_listen_token A f now w = Ok (f', w') -> f_state f' = ActiveIdle sr nps cc -> nps = None.
+  do_listen_token A f now w = Ok (f', w') -> f_state f' = ActiveIdle sr nps cc -> sr = None /\ nps = None.
 Proof.
   intros H Es'. unfold do_listen_token in H.
   destruct (assert_entry DoListenToken f) eqn:Ea; cbn [bind] in H; try discriminate H.
@@ -412,7 +412,7 @@ Proof.
         destruct (ready_for_ring (f_ring f1)).
         -- apply trans_spec in E2. destruct E2 as (s2 & Ht & -> & _). cbn in Es'.
            unfold transition_active_idle in Ht. destruct (assert_kind _ _); cbn [bind] in Ht; try discriminate Ht. injection Ht as <-.
-           injection Es' as _ <- _. reflexivity.
+           injection Es' as <- <- _. split; reflexivity.
         -- destruct (get_listen_token (f_state f1)) as [[sr1 cc1]| |]; cbn [bind] in E2; try discriminate E2.
            injection E2 as <- _. discriminate Es'.
     + exfalso. unfold receive_all_telegrams in H.
@@ -428,7 +428,7 @@ Qed.
 Lemma other_active_idle f now pin (apps : list A) f' o apps' calls sr nps cc k :
   poll ops f now pin apps = Ok (f', o, apps', calls) -> Rep k f ->
   kind_in (kind_of (f_state f)) [KActiveIdle; KCheckTokenPass] = false ->
-  f_state f' = ActiveIdle sr nps cc -> nps = None.
+  f_state f' = ActiveIdle sr nps cc -> sr = None /\ nps = None.
 Proof.
   intros E R Hk Es'.
   destruct (f_state f) as [ | |sr0 cc0|sr0 nps0 cc0|tk fa fcd|st|a1 tk fa|dg att|att|a0] eqn:Es; try discriminate Hk.
@@ -466,7 +466,7 @@ Proof.
       rewrite Hs3, Es in Hv. specialize (Hv eq_refl). rewrite Hv in Es'. discriminate Es'.
     + destruct Hto as [(C & _)|[(C & _)|[(fa' & C)|[(a' & fa' & C)|C]]]].
       * rewrite C, Es in Es'. discriminate Es'.
-      * rewrite C in Es'. injection Es' as _ <- _. reflexivity.
+      * rewrite C in Es'. injection Es' as <- <- _. split; reflexivity.
       * rewrite C in Es'. discriminate Es'.
       * rewrite C in Es'. discriminate Es'.
       * exfalso. destruct C as [C|C]; [rewrite Es' in C; discriminate C|rewrite C in Es'; discriminate Es'].
@@ -481,7 +481,7 @@ Proof.
       * exfalso. destruct Hspec as (_ & _ & [(_ & C & _)|[(_ & _ & _ & C)|[(_ & cur & _ & _ & _ & C)|(cur & a1 & _ & _ & _ & C & _)]]]); rewrite C in Es'; discriminate Es'.
       * destruct Hspec as (_ & _ & rest & received & _ & _ & Hcases).
         destruct Hcases as [(_ & _ & C & _)|[(t & _ & _ & _ & C & _)|[(t & _ & _ & _ & C & _)|(_ & _ & [(_ & C & _)|[(_ & _ & _ & C)|(a1 & _ & _ & C & _)]])]]];
-          rewrite C in Es'; try discriminate Es'. injection Es' as _ <- _. reflexivity.
+          rewrite C in Es'; try discriminate Es'. injection Es' as <- <- _. split; reflexivity.
   - (* AwaitDataResponse *)
     destruct (poll_state_cases A ops _ _ _ _ _ _ _ _ E) as [(_ & _ & [R1|(_ & s3 & Hp & Hq & Hv)])|(tk0 & _ & Hto & _)].
     + destruct R1 as (C & _). rewrite C in Es'. discriminate Es'.
@@ -489,7 +489,7 @@ Proof.
       rewrite Hs3, Es in Hv. specialize (Hv eq_refl). rewrite Hv in Es'. discriminate Es'.
     + destruct Hto as [(C & _)|[(C & _)|[(fa' & C)|[(a' & fa' & C)|C]]]].
       * rewrite C, Es in Es'. discriminate Es'.
-      * rewrite C in Es'. injection Es' as _ <- _. reflexivity.
+      * rewrite C in Es'. injection Es' as <- <- _. split; reflexivity.
       * rewrite C in Es'. discriminate Es'.
       * rewrite C in Es'. discriminate Es'.
       * exfalso. destruct C as [C|C]; [rewrite Es' in C; discriminate C|rewrite C in Es'; discriminate Es'].
@@ -498,7 +498,7 @@ Proof.
       rewrite C in Es'; try discriminate Es'. destruct (r_ns r' =? ts f); discriminate Es'.
   - (* AwaitStatusResponse *)
     destruct (after_gap_request_step A ops _ _ _ _ _ _ _ _ E ltac:(rewrite Es; reflexivity)) as (_ & _ & [(_ & [C|[C|C]])|(_ & _ & [C|(att & C)])]);
-      rewrite C in Es'; try rewrite Es in Es'; try discriminate Es'. injection Es' as _ <- _. reflexivity.
+      rewrite C in Es'; try rewrite Es in Es'; try discriminate Es'. injection Es' as <- <- _. split; reflexivity.
 Qed.
 
 End PollRuns.
@@ -617,7 +617,7 @@ Proof.
   rewrite Hk0 in Hrun, Hquiet, Hother. unfold x_cand0 in Hrun, Hquiet. rewrite Hk0 in Hrun, Hquiet.
   destruct (f_state f) as [ | |sr0 cc0|sr0 nps0 cc0|tk fa fcd|st|a1 tk fa|dg att|att|a0] eqn:Es.
   1-3,5-8,10: (apply Hother; [reflexivity|];
-    intros sr' nps' cc' Es'; eapply (other_active_idle A ops); [exact E|exact R|rewrite Es; reflexivity|exact Es']).
+    intros sr' nps' cc' Es'; eapply (proj2 (other_active_idle A ops _ _ _ _ _ _ _ _ _ _ _ _ E R ltac:(rewrite Es; reflexivity) Es'))).
   - (* ActiveIdle *)
     cbn [kind_of kind_in existsb state_kind_eqb orb] in Hrun, Hquiet.
     destruct (active_idle_poll_run A ops _ _ _ _ _ _ _ _ _ _ _ _ E R Es) as [(Hrx & Hcase)|[Hcl|(Htx & -> & Hro)]]; cbn [rx] in *.
